@@ -115,3 +115,79 @@ Definition tmismatches := tmismatches_from 0.
 
 (* constructor-like helper used by the generated case files *)
 Definition E (m : str) (p : bool) (k : ekind) (a : list str) : str * bool * ekind * list str := (m, p, k, a).
+
+(* ---- Dispatch and Help correspondence ---- *)
+From GO Require Import Model.Help Model.Dispatch.
+
+Record dcase := mkDCase {
+  d_base : pcase;                                          (* definition, argv and what Parse showed *)
+  d_ran : list (nat * list str * list (str * ostate));     (* user CommandFn invocations: id, args, view *)
+  d_err : option (str * bool * bool);                      (* error of Dispatch: message, is ErrorHelpCalled, is ErrorParsing *)
+  d_writer : str;                                          (* bytes written to Writer by Dispatch *)
+  d_help : str                                             (* opt.Help() after Parse *)
+}.
+
+Record dmask := mkDMask {
+  dm_fn : bool;     (* which function ran, how often *)
+  dm_args : bool;   (* the arguments it received *)
+  dm_view : bool;   (* the option view it saw *)
+  dm_err : bool;    (* error class and message of Dispatch *)
+  dm_writer : bool; (* what Dispatch wrote *)
+  dm_help : bool    (* Help() text *)
+}.
+Definition dmask_all := mkDMask true true true true true true.
+
+Definition view_eqb (a b : list (str * ostate)) : bool :=
+  list_eqb (fun x y => str_eqb (fst x) (fst y) && state_eqb mask_all (snd x) (snd y)) a b.
+
+Definition run_dcase (c : dcase) : option (dresult * str) :=
+  let b := d_base c in
+  match pr_out (run_case b) with
+  | Ok (st, rem) => Some (dispatch (c_specs b) (c_root b) st rem, help_of_state (c_specs b) st)
+  | Err _ => None
+  end.
+
+Definition check_dcase (pm : mask) (m : dmask) (c : dcase) : bool :=
+  check_case pm (d_base c) &&
+  match run_dcase c with
+  | None => true   (* Parse failed: nothing dispatched (the harness does not call Dispatch then) *)
+  | Some (r, h) =>
+      (negb (dm_help m) || str_eqb h (d_help c)) &&
+      match r with
+      | DRan id args view =>
+          match d_ran c with
+          | [(id', args', view')] =>
+              (negb (dm_fn m) || Nat.eqb id id') &&
+              (negb (dm_args m) || strs_eqb args args') &&
+              (negb (dm_view m) || view_eqb view view') &&
+              (negb (dm_err m) || match d_err c with None => true | Some _ => false end) &&
+              (negb (dm_writer m) || str_eqb [] (d_writer c))
+          | _ => negb (dm_fn m)
+          end
+      | DHelp txt =>
+          (negb (dm_fn m) || match d_ran c with [] => true | _ => false end) &&
+          (negb (dm_err m) || match d_err c with Some (_, true, _) => true | _ => false end) &&
+          (negb (dm_writer m) || str_eqb txt (d_writer c))
+      | DRootHelp txt =>
+          (negb (dm_fn m) || match d_ran c with [] => true | _ => false end) &&
+          (negb (dm_err m) || match d_err c with None => true | _ => false end) &&
+          (negb (dm_writer m) || str_eqb txt (d_writer c))
+      | DErr e =>
+          (negb (dm_fn m) || match d_ran c with [] => true | _ => false end) &&
+          (negb (dm_err m) || match d_err c with
+                              | Some (msg, false, p) => str_eqb msg (e_msg e) && Bool.eqb p (e_parsing e)
+                              | _ => false
+                              end) &&
+          (negb (dm_writer m) || str_eqb [] (d_writer c))
+      end
+  end.
+
+Fixpoint dmismatches_from (i : nat) (pm : mask) (m : dmask) (cs : list dcase) : list nat :=
+  match cs with
+  | [] => []
+  | c :: cs' => if check_dcase pm m c then dmismatches_from (S i) pm m cs' else i :: dmismatches_from (S i) pm m cs'
+  end.
+Definition dmismatches := dmismatches_from 0.
+
+Definition D3 (m : str) (h p : bool) : str * bool * bool := (m, h, p).
+Definition R3 (id : nat) (args : list str) (view : list (str * ostate)) : nat * list str * list (str * ostate) := (id, args, view).
